@@ -292,8 +292,14 @@ bool NinjaMain::RebuildManifest(const char* input_file, string* err,
     return false;
 
   // The manifest was only rebuilt if it is now dirty (it may have been cleaned
-  // by a restat).
-  if (!node->dirty()) {
+  // by a restat).  The command that generates it may have other outputs, such
+  // as manifests it includes: a change to any of them needs a reload as well.
+  bool rebuilt = node->dirty();
+  if (Edge* edge = node->in_edge()) {
+    for (Node* out : edge->outputs_)
+      rebuilt = rebuilt || out->dirty();
+  }
+  if (!rebuilt) {
     // Reset the state to prevent problems like
     // https://github.com/ninja-build/ninja/issues/874
     state_.Reset();
